@@ -84,16 +84,23 @@ theorem commit_form (hq : (exec .gitCommitPolicy g p).1.trouble = false) :
       · simp [polOf, commitAt_new]
   · simp
 
+/-- `git push` without git trouble: either it succeeded, or it was rejected while HEAD carries the
+same POLICY file as the remote head (nothing unpublished). -/
 theorem push_form (hq : (exec .gitPush g p).1.trouble = false) :
-    ∃ h, g.nextHead = some h ∧ (exec .gitPush g p).1.remote = h ∧ (exec .gitPush g p).2.1.base = h ∧
-      (exec .gitPush g p).1.store = g.store ∧ (exec .gitPush g p).1.nextHead = some h := by
+    ∃ h, g.nextHead = some h ∧ (exec .gitPush g p).1.nextHead = some h ∧ (exec .gitPush g p).1.store = g.store ∧
+      polOf g (exec .gitPush g p).1.remote = polOf g h ∧
+      ((exec .gitPush g p).2.2 = true → (exec .gitPush g p).2.1.base = (exec .gitPush g p).1.remote) ∧
+      ((exec .gitPush g p).2.2 = false → (exec .gitPush g p).2.1.base = p.base ∧ (exec .gitPush g p).1.remote = g.remote) := by
   revert hq
   simp only [exec]
   split
   · next h hh =>
     split
-    · intro _; exact ⟨h, hh, rfl, rfl, rfl, by simpa [G.nextHead] using hh⟩
-    · simp
+    · intro _; exact ⟨h, hh, by simpa [G.nextHead] using hh, rfl, rfl, fun _ => rfl, fun hf => by simp at hf⟩
+    · intro hq
+      simp at hq
+      refine ⟨h, hh, by simpa [G.nextHead] using hh, rfl, ?_, fun hf => by simp at hf, fun _ => ⟨rfl, rfl⟩⟩
+      simp [polOf, hq.2]
   · simp
 
 end NA.C19
